@@ -1,3 +1,4 @@
+import RsMatterVerif.Generated.Consts
 import RsMatterVerif.Model.Codec.Buf
 /-!
 # Model of `transport/proto_hdr.rs` (`ProtoHdr::encode`, the decoding half of `decrypt_and_decode`
@@ -6,12 +7,12 @@ with `dec_key = None`, the getters)
 namespace Codec.ProtoHdr
 open Codec
 
-def INITIATOR : Nat := 0x01
-def ACK : Nat := 0x02
-def RELIABLE : Nat := 0x04
-def SECEX : Nat := 0x08
-def VENDOR : Nat := 0x10
-def EXCH_FLAGS_ALL : Nat := 0x1F
+def INITIATOR : Nat := Consts.c17ExchInitiator
+def ACK : Nat := Consts.c17ExchAck
+def RELIABLE : Nat := Consts.c17ExchReliable
+def SECEX : Nat := Consts.c17ExchSecex
+def VENDOR : Nat := Consts.c17ExchVendor
+def EXCH_FLAGS_ALL : Nat := INITIATOR ||| ACK ||| RELIABLE ||| SECEX ||| VENDOR
 
 def contains (flags m : Nat) : Bool := flags &&& m == m
 
